@@ -2,7 +2,7 @@
     the shortest/longest matching prefix/suffix, the empty one included.
     Only pinned statements, [exact], and [Print Assumptions]. *)
 From BV Require Import Base.Prelude ParamExp.Remove ParamExp.RemoveProofs ParamExp.Param ParamExp.ParamSpec ParamExp.ParamProofs.
-From BV Require Import gen.C06ParamOps ParamExp.OpsOrder.
+From BV Require Import gen.C06ParamOps ParamExp.OpsOrder ParamExp.EvProofs.
 
 (** ** The bash-independent clause, for every matcher [m] and every string [s]. *)
 
@@ -15,34 +15,34 @@ Theorem c06_remove_largest_suffix : forall m s, largest_suffix_spec m s (remove_
 Proof. exact remove_largest_suffix_spec. Qed.
 Print Assumptions c06_remove_largest_suffix.
 
-(** [#] and [%] after the repair (fix: commits): full strength. *)
-Theorem c06_remove_smallest_prefix_repaired : forall m s, smallest_prefix_spec m s (remove_smallest_prefix' m s).
+(** [#] and [%] (loops as repaired by 0a1f494, ce50a75): full strength. *)
+Theorem c06_remove_smallest_prefix : forall m s, smallest_prefix_spec m s (remove_smallest_prefix m s).
 Proof. exact remove_smallest_prefix_repaired_spec. Qed.
-Print Assumptions c06_remove_smallest_prefix_repaired.
+Print Assumptions c06_remove_smallest_prefix.
 
-Theorem c06_remove_smallest_suffix_repaired : forall m s, smallest_suffix_spec m s (remove_smallest_suffix' m s).
+Theorem c06_remove_smallest_suffix : forall m s, smallest_suffix_spec m s (remove_smallest_suffix m s).
 Proof. exact remove_smallest_suffix_repaired_spec. Qed.
-Print Assumptions c06_remove_smallest_suffix_repaired.
+Print Assumptions c06_remove_smallest_suffix.
 
-(** [#] and [%] on the unchanged tree: refuted when the pattern matches the empty string
-    (witness: pattern [*], value abc), proved outside that class. *)
-Theorem c06_remove_smallest_prefix_refuted : exists m s, ~ smallest_prefix_spec m s (remove_smallest_prefix m s).
+(** Regression: the loops as they were before the repair ([…_old]) are refuted when the pattern
+    matches the empty string (witness: pattern [*], value abc) and were right outside that class. *)
+Theorem c06_regression_old_smallest_prefix_refuted : exists m s, ~ smallest_prefix_spec m s (remove_smallest_prefix_old m s).
 Proof. exact remove_smallest_prefix_refuted. Qed.
-Print Assumptions c06_remove_smallest_prefix_refuted.
+Print Assumptions c06_regression_old_smallest_prefix_refuted.
 
-Theorem c06_remove_smallest_suffix_refuted : exists m s, ~ smallest_suffix_spec m s (remove_smallest_suffix m s).
+Theorem c06_regression_old_smallest_suffix_refuted : exists m s, ~ smallest_suffix_spec m s (remove_smallest_suffix_old m s).
 Proof. exact remove_smallest_suffix_refuted. Qed.
-Print Assumptions c06_remove_smallest_suffix_refuted.
+Print Assumptions c06_regression_old_smallest_suffix_refuted.
 
-Theorem c06_remove_smallest_prefix_outside_known : forall m s, m [] = false ->
-  smallest_prefix_spec m s (remove_smallest_prefix m s).
+Theorem c06_regression_old_smallest_prefix_outside_class : forall m s, m [] = false ->
+  smallest_prefix_spec m s (remove_smallest_prefix_old m s).
 Proof. exact remove_smallest_prefix_outside_known. Qed.
-Print Assumptions c06_remove_smallest_prefix_outside_known.
+Print Assumptions c06_regression_old_smallest_prefix_outside_class.
 
-Theorem c06_remove_smallest_suffix_outside_known : forall m s, m [] = false ->
-  smallest_suffix_spec m s (remove_smallest_suffix m s).
+Theorem c06_regression_old_smallest_suffix_outside_class : forall m s, m [] = false ->
+  smallest_suffix_spec m s (remove_smallest_suffix_old m s).
 Proof. exact remove_smallest_suffix_outside_known. Qed.
-Print Assumptions c06_remove_smallest_suffix_outside_known.
+Print Assumptions c06_regression_old_smallest_suffix_outside_class.
 
 (** The specification determines the result, and the executable oracle used by the check
     computes it. *)
@@ -63,16 +63,16 @@ Print Assumptions c06_oracle_suffix_sound.
 
 (** The four operators through [transform_expansion], for every parameter (scalars,
     positional parameters, [$@]/[$*], arrays), with and without nounset. *)
-Theorem c06_removal_repaired_eq_oracle : forall sh r o m,
+Theorem c06_removal_eq_oracle : forall sh r o m,
   obs (removal true sh r o (Some m)) = removal_oracle sh r o (Some m).
 Proof. exact removal_repaired_eq_oracle. Qed.
-Print Assumptions c06_removal_repaired_eq_oracle.
+Print Assumptions c06_removal_eq_oracle.
 
-Theorem c06_removal_outside_known : forall sh r o m,
+Theorem c06_regression_old_removal_outside_class : forall sh r o m,
   (match o with RmSmallestPrefix | RmSmallestSuffix => m [] = false | _ => True end) ->
   obs (removal false sh r o (Some m)) = removal_oracle sh r o (Some m).
 Proof. exact removal_outside_known. Qed.
-Print Assumptions c06_removal_outside_known.
+Print Assumptions c06_regression_old_removal_outside_class.
 
 (** ** unset / null / set *)
 Theorem c06_arms_are_posix_table : forall op colon st, arm_action op colon st = posix_table op colon (tr st).
@@ -85,53 +85,60 @@ Proof. exact unset_null_table. Qed.
 Print Assumptions c06_unset_null_table.
 
 (** ** length *)
-Theorem c06_length_repaired_eq_spec : forall sh r, known_len sh r = false ->
-  parameter_length' sh r = length_spec sh r.
+Theorem c06_length_eq_spec : forall sh r, known_len sh r = false ->
+  parameter_length sh r = length_spec sh r.
 Proof. exact length_repaired_eq_spec. Qed.
-Print Assumptions c06_length_repaired_eq_spec.
+Print Assumptions c06_length_eq_spec.
 
 Theorem c06_length_chars : forall sh r,
-  (forall w, is_list r = false -> words sh r = Some [w] -> parameter_length' sh r = Ok (length w)) /\
-  (forall l, is_list r = true -> words sh r = Some l -> parameter_length' sh r = Ok (length l)).
+  (forall w, is_list r = false -> words sh r = Some [w] -> parameter_length sh r = Ok (length w)) /\
+  (forall l, is_list r = true -> words sh r = Some l -> parameter_length sh r = Ok (length l)).
 Proof. exact length_chars. Qed.
 Print Assumptions c06_length_chars.
 
-Theorem c06_length_outside_known : forall sh r,
+Theorem c06_regression_old_length_ascii : forall sh r,
   (forall w, is_list r = false -> words sh r = Some [w] -> ascii w = true) ->
-  parameter_length sh r = parameter_length' sh r.
+  parameter_length_old sh r = parameter_length sh r.
 Proof. exact length_outside_known. Qed.
-Print Assumptions c06_length_outside_known.
+Print Assumptions c06_regression_old_length_ascii.
 
-Theorem c06_length_refuted : exists sh r, parameter_length sh r <> length_spec sh r.
+Theorem c06_regression_old_length_refuted : exists sh r, parameter_length_old sh r <> length_spec sh r.
 Proof. exact length_refuted. Qed.
-Print Assumptions c06_length_refuted.
+Print Assumptions c06_regression_old_length_refuted.
 
 (** ** substring *)
 Theorem c06_substring_bounds_eq_bash : forall sh r off olen, fits sh r ->
-  obs (substring' sh r off olen) = substring_spec sh r off olen.
+  obs (substring sh r off olen) = substring_spec sh r off olen.
 Proof. exact substring_repaired_eq_spec. Qed.
 Print Assumptions c06_substring_bounds_eq_bash.
 
-Theorem c06_substring_no_panic : forall sh r off olen, fits sh r -> substring' sh r off olen <> Panic.
+Theorem c06_substring_no_panic : forall sh r off olen, fits sh r -> substring sh r off olen <> Panic.
 Proof. exact substring_no_panic. Qed.
 Print Assumptions c06_substring_no_panic.
 
 (** The unchanged arm, outside its two known classes (negative length; non-ASCII scalar word). *)
-Theorem c06_substring_outside_known : forall sh r off olen, fits sh r ->
+Theorem c06_regression_old_substring_outside_class : forall sh r off olen, fits sh r ->
   (forall l, olen = Some l -> 0 <= l) ->
   (forall w, is_list r = false -> words sh r = Some [w] -> ascii w = true) ->
-  obs (substring sh r off olen) = substring_spec sh r off olen.
+  obs (substring_old sh r off olen) = substring_spec sh r off olen.
 Proof. exact substring_outside_known. Qed.
-Print Assumptions c06_substring_outside_known.
+Print Assumptions c06_regression_old_substring_outside_class.
 
-Theorem c06_substring_refuted : exists sh r off olen, substring sh r off olen = Panic.
+Theorem c06_regression_old_substring_panics : exists sh r off olen, substring_old sh r off olen = Panic.
 Proof. exact substring_refuted. Qed.
-Print Assumptions c06_substring_refuted.
+Print Assumptions c06_regression_old_substring_panics.
 
-Theorem c06_substring_negative_length_refuted :
-  obs (substring (sh_scalar abcdefgh) RNamed 2 (Some (-3))) <> substring_spec (sh_scalar abcdefgh) RNamed 2 (Some (-3)).
+Theorem c06_regression_old_substring_negative_length :
+  obs (substring_old (sh_scalar abcdefgh) RNamed 2 (Some (-3))) <> substring_spec (sh_scalar abcdefgh) RNamed 2 (Some (-3)).
 Proof. exact substring_negative_length_refuted. Qed.
-Print Assumptions c06_substring_negative_length_refuted.
+Print Assumptions c06_regression_old_substring_negative_length.
+
+(** Order of evaluation: the offset is evaluated only for a parameter that has words, the length only
+    for an offset inside the value (side effects and errors of skipped operands do not happen). *)
+Theorem c06_substring_evaluation_order : forall sh r off olen, fits sh r ->
+  obs_ev (substring_ev sh r off olen) = substring_spec_ev sh r off olen.
+Proof. exact substring_ev_eq_spec. Qed.
+Print Assumptions c06_substring_evaluation_order.
 
 (** ** [${!a[@]}] / [${!a[*]}] *)
 Theorem c06_member_keys : forall sh c, dq_args (member_keys sh c) = keys_spec sh c.
@@ -148,6 +155,17 @@ Print Assumptions c06_ops_longest_first.
 Theorem c06_modelled_ops_recognised : forallb (fun o => existsb (str_eqb o) param_ops) modelled_ops = true.
 Proof. exact modelled_ops_recognised. Qed.
 Print Assumptions c06_modelled_ops_recognised.
+
+(** ** regression examples on the model of the present code *)
+Theorem c06_regression_examples :
+  remove_smallest_prefix m_star abc = abc /\ remove_smallest_suffix m_star abc = abc /\
+  parameter_length (sh_scalar e_acute) RNamed = Ok 1%nat /\
+  substring (sh_scalar abcd) RNamed 2 (Some (-5)) = Fail /\
+  obs (substring (sh_scalar abcdefgh) RNamed 2 (Some (-3))) = Ok ([[99; 100; 101]%N], None) /\
+  substring_ev (sh_scalar abc) RNamed {| oval := 5; oerr := false; oinc := 0 |} (Some {| oval := 0; oerr := true; oinc := 1 |})
+    = (Ok {| fields := []; concatenate := true; from_array := false; undefined := false |}, 0).
+Proof. exact regression_examples. Qed.
+Print Assumptions c06_regression_examples.
 
 (** ** non-vacuity *)
 Theorem c06_hypotheses_satisfiable :
